@@ -44,6 +44,9 @@ pub struct GarbageTrace {
     pub p0: u8,
     pub models: Vec<(ModelSpec, Repr)>,
     pub decodes: Vec<usize>,
+    /// chain coder only: `change_precision` to `.1` before decode number `.0`
+    #[serde(default)]
+    pub changes: Vec<(usize, u8)>,
 }
 
 macro_rules! viol {
@@ -165,8 +168,24 @@ fn exec_cfg<C: Ws>(t: &GarbageTrace, ctx: &mut Ctx) -> Result<(), Violation> {
                 Some(Ok(mut c)) => {
                     for (i, mi) in t.decodes.iter().enumerate() {
                         ctx.op = i;
+                        if let Some((_, np)) = t.changes.iter().find(|(at, _)| *at == i) {
+                            if *np != c.precision() && <C::W as ChainWord>::PRECISIONS.contains(np) {
+                                ctx.stats.hit("op-change-precision");
+                                match c.change(*np) {
+                                    Some(Ok(c2)) => c = c2,
+                                    // OutOfRemainders is the documented error of a decrease; the coder is consumed
+                                    Some(Err(e)) => {
+                                        if !e.contains("OutOfRemainders") {
+                                            viol!(ctx, "undocumented-decode-error", "ChainCoder::change_precision: {}", e);
+                                        }
+                                        return Ok(());
+                                    }
+                                    None => return Ok(()),
+                                }
+                            }
+                        }
                         let Some(Some(b)) = built.get(*mi) else { ctx.stats.hit("skipped-op"); continue };
-                        if !b.can_decode() || b.p != t.p0 { ctx.stats.hit("skipped-op"); continue }
+                        if !b.can_decode() || b.p != c.precision() { ctx.stats.hit("skipped-op"); continue }
                         ctx.stats.hit("op-dec");
                         match c.dec(b) {
                             DecRes::Ok(sym) => {
@@ -217,6 +236,24 @@ pub fn generate(seed: u64, _prop: &str, _thorough: bool) -> GarbageTrace {
         plain.push(build_caught(&spec, Repr::Plain).expect("buildable"));
         models.push((spec, repr));
     }
+    // chain coder: sometimes a second precision with its own models and a change schedule
+    let mut p_alt: Option<u8> = None;
+    if chain && bias.chance(1, 3) {
+        let alts: Vec<u8> = menu.iter().map(|(_, p)| *p).filter(|p| *p != p0).collect();
+        if !alts.is_empty() {
+            let pa = *rng.pick(&alts);
+            let c: Vec<(u8, u8)> = menu.iter().cloned().filter(|(_, p)| *p == pa).collect();
+            for _ in 0..1 + rng.usize(2) {
+                let (pb, p) = *rng.pick(&c);
+                let max_syms = 2 + rng.usize(30);
+                let spec = gen_spec(&mut rng, pb, p, max_syms, 50);
+                plain.push(build_caught(&spec, Repr::Plain).expect("buildable"));
+                models.push((spec, Repr::Plain));
+            }
+            p_alt = Some(pa);
+        }
+    }
+    let n_models = models.len();
     let n_dec = rng.len(10, 40);
     let mut decodes: Vec<usize> = (0..n_dec).map(|_| rng.usize(n_models)).collect();
     let word = |rng: &mut Rng| rng.word(wb);
@@ -264,7 +301,11 @@ pub fn generate(seed: u64, _prop: &str, _thorough: bool) -> GarbageTrace {
     let _ = sb;
     let src = *bias.pick(&[Src::Vec, Src::Vec, Src::Slice, Src::Iter]);
     let err_at = if src == Src::Iter && frng.chance(1, 2) { Some(frng.usize(data.len() + 1)) } else { None };
-    GarbageTrace { cfg, coder, src, err_at, data, origin: origin.to_string(), p0, models, decodes }
+    let changes: Vec<(usize, u8)> = match p_alt {
+        Some(pa) => { let mut v = Vec::new(); let mut cur = p0; for i in 0..decodes.len() { if rng.chance(1, 5) { cur = if cur == p0 { pa } else { p0 }; v.push((i, cur)); } } v }
+        None => Vec::new(),
+    };
+    GarbageTrace { cfg, coder, src, err_at, data, origin: origin.to_string(), p0, models, decodes, changes }
 }
 
 fn mask64(bits: u32) -> u64 {
